@@ -79,14 +79,14 @@ def case_batch(batch, wctx):
 
 def run(ctx):
     quick = ctx.tier == "quick"
-    n = 400 if quick else 30000
+    n = G.QUICK_N.get(ctx.prop, 400) if quick else 30000
     per = 25 if quick else 400
     ctx.rule = ("random shell.define definitions (1-6 fields of 7 kinds, 5 argstr styles, explicit +/- positions, "
                 "separators, defaults) x value assignments of simple words incl. unset/None/0/0.0/False; each run "
                 "end to end with the dumpargv fake; non-trivial = at least 2 fields contribute arguments; "
                 "distinct = distinct case spec")
     cases = [{"lo": i, "hi": min(n, i + per)} for i in range(0, n, per)]
-    ctx.record_all(ctx.pmap("vp.props.c22:case_batch", cases, nproc=G.NPROC, timeout=150 if quick else 2400))
+    ctx.record_all(ctx.pmap("vp.props.c22:case_batch", cases, nproc=G.NPROC, timeout=300 if quick else 2400))
     ctx.assumptions = ["reference model vp/ref_argv.py encodes the shell.arg documentation + the statement; "
                        "'' values, empty plain lists, '...' with a non-space sep and rejected definitions are MAY"]
 
